@@ -19,10 +19,12 @@ _SL = [("SatLedger.tla", "SatLedger.cfg", 8, 900, 900)]
 _SL_T = _SL + [("SatLedger.tla", "SatLedger_c.cfg", 8, 5400, 5400)]
 _IF = [("InscrFlotsam.tla", "InscrFlotsam.cfg", 8, 1200, 1200)]
 _IF_T = _IF + [("InscrFlotsam.tla", "InscrFlotsam_big.cfg", 8, 3600, 3600)]
-LEVEL_A = {"C12": _IX, "C13": _IX, "C14": _IX, "C01": _SL, "C02": _SL, "C06": _IF}
-LEVEL_A_THOROUGH = {"C12": _IX_T, "C13": _IX_T, "C14": _IX_T, "C01": _SL_T, "C02": _SL_T, "C06": _IF_T}
+_RM = [("RuneModel.tla", "RuneModel.cfg", 8, 1200, 1200)]
+_RM_T = _RM + [("RuneModel.tla", "RuneModel_big.cfg", 8, 7200, 7200)]
+LEVEL_A = {"C08": _RM, "C12": _IX, "C13": _IX, "C14": _IX, "C01": _SL, "C02": _SL, "C06": _IF}
+LEVEL_A_THOROUGH = {"C08": _RM_T, "C12": _IX_T, "C13": _IX_T, "C14": _IX_T, "C01": _SL_T, "C02": _SL_T, "C06": _IF_T}
 
-LEVELS = {"C01": "model_checking", "C02": "model_checking", "C06": "model_checking", "C21": "model_checking", "C22": "model_checking", "C23": "model_checking", "C24": "model_checking", "C27": "model_checking", "C36": "model_checking", "C26": "model_checking", "C29": "model_checking", "C20": "model_checking", "C12": "model_checking", "C13": "fault_enumeration", "C14": "model_checking"}
+LEVELS = {"C01": "model_checking", "C02": "model_checking", "C06": "model_checking", "C08": "model_checking", "C21": "model_checking", "C22": "model_checking", "C23": "model_checking", "C24": "model_checking", "C27": "model_checking", "C36": "model_checking", "C26": "model_checking", "C29": "model_checking", "C20": "model_checking", "C12": "model_checking", "C13": "fault_enumeration", "C14": "model_checking"}
 
 ASSUME_PROTO = [
     "content equality is judged on a digest of every table row except WRITE_TRANSACTION_STARTING_BLOCK_COUNT_TO_TIMESTAMP "
